@@ -532,6 +532,45 @@ impl<const N: usize> OrSWotSet<N> {
     }
 }
 
+#[cfg(datacake_verif)]
+#[derive(Debug, Clone, PartialEq, Eq, Hash, PartialOrd, Ord)]
+/// Verification-only, read-only view of a set (compiled with `--cfg datacake_verif`).
+pub struct VerifSnapshot {
+    /// Live entries, sorted by key.
+    pub entries: Vec<(Key, HLCTimestamp)>,
+    /// Tombstones, sorted by key.
+    pub dead: Vec<(Key, HLCTimestamp)>,
+    /// Newest stamp observed per source and origin node.
+    pub max_stamps: Vec<Vec<(u8, HLCTimestamp)>>,
+    /// The purge/refusal cut-off per origin node.
+    pub safe_stamps: Vec<(u8, HLCTimestamp)>,
+}
+
+#[cfg(datacake_verif)]
+impl<const N: usize> OrSWotSet<N> {
+    /// A canonical (sorted) copy of the whole state of the set.
+    pub fn verif_snapshot(&self) -> VerifSnapshot {
+        let mut dead = self.dead.iter().map(|(k, v)| (*k, *v)).collect::<Vec<_>>();
+        dead.sort();
+        VerifSnapshot {
+            entries: self.entries.iter().map(|(k, v)| (*k, *v)).collect(),
+            dead,
+            max_stamps: self
+                .versions
+                .nodes_max_stamps
+                .iter()
+                .map(|m| m.iter().map(|(k, v)| (*k, *v)).collect())
+                .collect(),
+            safe_stamps: self
+                .versions
+                .safe_last_stamps
+                .iter()
+                .map(|(k, v)| (*k, *v))
+                .collect(),
+        }
+    }
+}
+
 #[cfg(test)]
 mod tests {
     use std::time::Duration;
